@@ -145,7 +145,11 @@ Invalid(op) ==
        E(attrs, inputs, nout, f) == Emit1(CaseOf("invalid", op, attrs, inputs, nout, <<op, f>>))
    IN /\ \A n \in 0..4 : n # NActs(op) => E(base \o <<ASs("activations", [i \in 1..n |-> "relu"])>>, ins, NOut(op), "activations_wrong_length")
       /\ E(base \o <<ASs("activations", [i \in 1..NActs(op) |-> "softsign"])>>, ins, NOut(op), "activation_unknown")
-      /\ E(base \o <<ASs("activations", [i \in 1..NActs(op) |-> "Relu"])>>, ins, NOut(op), "activation_onnx_spelling")
+      /\ E(base \o <<ASs("activations", [i \in 1..NActs(op) |-> "Relu"])>>, BuildInputs(op, "f32", [i \in 1..NActs(op) |-> "relu"], 2, 2, 2, 2, {"B", "h0"}, 0, FALSE, FALSE), NOut(op), "activation_onnx_spelling")
+      \* the ONNX spelling in one slot, for every slot and name: refused, or computed with exactly that function in that slot
+      /\ \A i \in 1..NActs(op) : \A nm \in {<<"Relu", "relu">>, <<"Tanh", "tanh">>, <<"Sigmoid", "sigmoid">>} : \A a \in StructActs(op) :
+            E(base \o <<ASs("activations", [a EXCEPT ![i] = nm[1]])>>, BuildInputs(op, "f32", [a EXCEPT ![i] = nm[2]], 2, 2, 2, 2, {"B", "h0"}, 0, FALSE, FALSE), NOut(op),
+              "activation_onnx_spelling_slot" \o ToString(i))
       /\ E(base \o <<AF("clip", 3)>>, ins, NOut(op), "clip")
       /\ \A d \in {"reverse", "bidirectional"} : E(base \o <<AS("direction", d)>>, ins, NOut(op), "direction")
       /\ E(base, [ins EXCEPT ![5] = T("i32", <<2>>, <<2, 2>>)], NOut(op), "sequence_lens")
